@@ -606,6 +606,89 @@ def nativeEndianOk (x : Name × Bool) : Bool :=
   | some v => nameEq v (if x.2 then n!"big" else n!"little")
   | none => false
 
+/-! ### Programs, sections, map kinds, build-time override -/
+
+/-- cilium/libbpf derive program type and expected attach type from the ELF section name: the section a
+program must live in for each cgroup attach type the control plane uses (hand-written from the
+section table of cilium/ebpf). -/
+def attachSection : List (Name × Name) := [
+  (n!"AttachCGroupInetSockCreate", n!"cgroup/sock_create"),
+  (n!"AttachCgroupInetSockRelease", n!"cgroup/sock_release"),
+  (n!"AttachCGroupInet4Connect", n!"cgroup/connect4"),
+  (n!"AttachCGroupInet6Connect", n!"cgroup/connect6"),
+  (n!"AttachCGroupUDP4Sendmsg", n!"cgroup/sendmsg4"),
+  (n!"AttachCGroupUDP6Sendmsg", n!"cgroup/sendmsg6")]
+
+def progSection? (p : Name) : Option (Name × Name) :=
+  Gen.cProgSections.findSome? (fun x => if nameEq x.1 p then some x.2 else none)
+
+/-- `{Prog: bpf.P, Attach: ebpf.A}`: P's section is the one A requires -/
+def progAttachOk (x : Name × Name) : Bool :=
+  match progSection? x.1, lookupNameOpt x.2 attachSection with
+  | some s, some want => nameEq s.1 want
+  | _, _ => false
+
+/-- a program the control plane refers to is attached through the cgroup table above or is a TC
+classifier (`tc/…` section, attached with netlink/tcx) -/
+def progUseOk (p : Name) : Bool :=
+  Gen.goProgAttach.any (fun x => nameEq x.1 p) ||
+    (match progSection? p with | some s => nameEq s.2 n!"tc" | none => false)
+
+/-- What the control plane does with each map presupposes its kind (numeric `BPF_MAP_TYPE_*`):
+arithmetic index keys need ARRAY (2), per-key lookup/delete and batch iteration need HASH (1), the LPM
+tries created by `newLpmMap` are LPM_TRIE (11) inside an ARRAY_OF_MAPS (12), listener fds go into a
+SOCKMAP (15). Hand-written; the LPM_TRIE row is additionally regenerated from `newLpmMap`. -/
+def goMapKindExpect : List (Name × Nat) := [
+  (n!"outbound_connectivity_map", 2), (n!"routing_map", 2), (n!"routing_meta_map", 2), (n!"bpf_stats_map", 2),
+  (n!"conn_state_map", 1), (n!"routing_handoff_map", 1), (n!"redirect_track", 1), (n!"cookie_pid_map", 1),
+  (n!"domain_routing_map", 1), (n!"unused_lpm_type", 11), (n!"lpm_array_map", 12), (n!"listen_socket_map", 15)]
+
+def mapKindOk (x : Name × Nat) : Bool :=
+  match findMap x.1 Gen.cMaps with | some m => m.mtype == x.2 | none => false
+
+/-- `ebpf.LPMTrie` etc. as numbers -/
+def ebpfMapTypeNum : List (Name × Nat) := [(n!"Hash", 1), (n!"Array", 2), (n!"LPMTrie", 11), (n!"ArrayOfMaps", 12)]
+
+/-- `newLpmMap` creates maps of the kind `unused_lpm_type` declares -/
+def newMapTypeOk (x : Name × Name) : Bool :=
+  if nameEq x.1 n!"newLpmMap" then
+    match lookupConst x.2 (ebpfMapTypeNum.map (fun y => (y.1, (y.2 : Int)))), findMap n!"unused_lpm_type" Gen.cMaps with
+    | some t, some m => t == (m.mtype : Int)
+    | _, _ => false
+  else true
+
+/-- Build-time override: the Makefile hands ONE variable to the C compiler (`-DMAX_MATCH_SET_LEN`) and
+to the Go linker (`-X …consts.MaxMatchSetLen_`), its default is the default of both sources, and for a
+non-default value (2048) the C program's dependent sizes follow it (bitmap words × 32, `routing_map`,
+`lpm_array_map` = N + 8 = `MAX_LPM_NUM`). -/
+def overrideConsistent : Bool :=
+  (match Gen.makefileMaxMatchSetLen.1, goC? n!"consts.MaxMatchSetLen", cC? n!"MAX_MATCH_SET_LEN" with
+   | some d, some g, some c => d == g && d == c
+   | _, _, _ => false)
+  && Gen.makefileMaxMatchSetLen.2.1 && Gen.makefileMaxMatchSetLen.2.2
+  && (match Gen.cOverride2048 with
+      | [n, words, rm, lpm, lpmNum] => n == 2048 && words * 32 == n && rm == n && lpm == n + 8 && lpmNum == lpm
+      | _ => false)
+
+/-! ### Widths of the generated enumerations -/
+
+/-- A spec the generated Go file can carry: Go declares all four enumerations `uint8`, the C header
+packs `MatchType` into one byte and stores outbound ids in `__u8`. -/
+def specFits (s : Spec) : Bool :=
+  s.matchTypes.length ≤ 256 && s.outbound.all (·.2 < 256) && s.l4.all (·.2 < 256) && s.ip.all (·.2 < 256)
+
+/-- widths on the C side of the places the generated values are stored in (bytes): `match_set.type`,
+`match_set.outbound`, and the enum types behind `l4proto_type` / `ip_version` -/
+def enumStorageOk : Bool :=
+  (match findRec n!"match_set" Gen.cRecs with
+   | some r =>
+     (findLeaf n!"type" r.leaves).map (·.esize) == some 1 && (findLeaf n!"outbound" r.leaves).map (·.esize) == some 1
+     && (findLeaf n!"l4proto_type" r.leaves).map (·.esize) == some 4 && (findLeaf n!"ip_version" r.leaves).map (·.esize) == some 4
+   | none => false)
+  && (match findRec n!"stub.bpfMatchSet" (goRecsFor n!"amd64") with
+      | some r => (findLeaf n!"Type" r.leaves).map (·.esize) == some 1 && (findLeaf n!"Outbound" r.leaves).map (·.esize) == some 1
+      | none => false)
+
 /-! ## 3. Bytes and byte order -/
 
 inductive Endian where
